@@ -155,7 +155,24 @@ func (m *Monitor) OnBegin(s *apphist.Sim, a *apphist.BeginArgs, preD, postD stri
 						m.fail(s, "C12", "refund-height", fmt.Sprintf("stake %s force-released at block %d under unbonding period %d must stay locked until block %d, recorded refund height %d", k.Hash, a.H, period, a.H+period, f.Refund))
 					}
 					if !ok || f.Power != k.Power || f.Owner != k.Owner || f.Refund != a.H+period {
-						m.fail(s, "C14", "jail-effect", fmt.Sprintf("jailed delegatee %s: stake %s (power %d) not moved to unbonding with refund height %d (found %+v)", addr, k.Hash, k.Power, a.H+period, f))
+						kind := "jail-effect"
+						// known finding shared with C02/C11/C12: the unbonding ledger is keyed by the staking tx hash and
+						// all genesis stakes carry the zero hash; the kind is only assigned when ANOTHER stake really
+						// shares this stake's key (bonded under a different delegatee or already unbonding for another owner)
+						if pf, was := pre.Frozen[k.Hash]; was && pf.Owner != k.Owner {
+							kind = "frozen-key-collision"
+						}
+						for addr2, d2 := range pre.Delegs {
+							if addr2 == addr {
+								continue
+							}
+							for _, k2 := range d2.Stakes {
+								if k2.Hash == k.Hash {
+									kind = "frozen-key-collision"
+								}
+							}
+						}
+						m.fail(s, "C14", kind, fmt.Sprintf("jailed delegatee %s: stake %s (power %d) not moved to unbonding with refund height %d (found %+v)", addr, k.Hash, k.Power, a.H+period, f))
 					}
 				}
 				m.ok("C14.jail-effect")
